@@ -151,8 +151,8 @@ def Ty.beqMembers : List (Str × Bool × Ty) → List (Str × Bool × Ty) → Bo
 end
 
 mutual
-/-- `T.Equals(U)` as the implementation has it: structural, except that `CallableType.Equals` answers true for any two
-    Callable types (it compares nothing), also where they occur nested inside other types -/
+/-- `T.Equals(U)` as the implementation has it: structural (since /repo 3d635fb also for Callable: parameter, return and
+    block types pairwise, an absent part equals only an absent part; before that fix any two Callables were equal) -/
 def Ty.eqGo : Ty → Ty → Bool
   | .named a, .named b => a == b
   | .int a b, .int c d => a == c && b == d
@@ -170,9 +170,15 @@ def Ty.eqGo : Ty → Ty → Bool
   | .collection a b, .collection c d => a == c && b == d
   | .tuple a b, .tuple c d => Ty.eqGoList a c && b == d
   | .struct a, .struct b => Ty.eqGoMembers a b
-  | .callable _ _ _, .callable _ _ _ => true           -- `CallableType.Equals`: any two Callables are equal
+  | .callable none b c, .callable none e f => Ty.eqGoOpt b e && Ty.eqGoOpt c f
+  | .callable (some (ts, sz)) b c, .callable (some (us, usz)) e f =>
+    Ty.eqGoList ts us && sz == usz && Ty.eqGoOpt b e && Ty.eqGoOpt c f
   | .runtime a b c, .runtime d e f => a == d && b == e && c == f
   | .typeRef a, .typeRef b => a == b
+  | _, _ => false
+def Ty.eqGoOpt : Option Ty → Option Ty → Bool
+  | none, none => true
+  | some a, some b => Ty.eqGo a b
   | _, _ => false
 def Ty.eqGoList : List Ty → List Ty → Bool
   | [], [] => true
